@@ -554,7 +554,8 @@ ASSUMPTIONS = [
     "one argument slot may be replaced by a value from a 20-element pool of awkward values (inf, nan, 10**400, numeric-looking / percent / non-ASCII / invalid base64 strings, list, dict, range, nested and mixed lists)",
     "babel-backed filters run with their default locale data",
 ]
-OUTSIDE = ["MemoryError from arguments that ask for huge allocations (resource exhaustion: C06-C08)", "strings longer than 3 code points (except pool members)", "RecursionError from deep recursion (C09)", "custom filters and drops"]
+OUTSIDE = ["MemoryError from arguments that ask for huge allocations (resource exhaustion: C06-C08)", "strings longer than 3 code points (except pool members)", "RecursionError from deep recursion (C09)", "custom filters and drops",
+           "Python-only values with no Liquid counterpart whose own methods raise (e.g. range(10**30): len() raises OverflowError)"]
 
 
 def selftest():
